@@ -317,7 +317,8 @@ class HalfRankComponent(OutputWarper):
     std = np.sqrt(
         ((unique_labels - threshold) ** 2).sum() * (1 / unique_labels.shape[0])
     )
-    if np.isfinite(std):
+    # Squares of very small deviations underflow to 0: fall through then too.
+    if np.isfinite(std) and std > 0:
       return std
     std = (np.abs(unique_labels - threshold)).sum() * (
         1 / unique_labels.shape[0]
